@@ -609,6 +609,16 @@ def run_search(ctx, case):
   X = numpy.concatenate((oh[:: max(1, n // 3)][:3], lo[:1], gr[:1]))
   check_densities(ctx, case, est, "c4", "c4", hl, hg, X, "search")
   check_lies(ctx, case, est, "c4", "c4", hl, hg, "search")
+  # after a full lie cycle (stash, recover, clear) the sets must again be exactly the satisfiers / the violators
+  est.append_lies([numpy.array(oh[0], dtype=float)])
+  est.recover_lies(est.stash_lies())
+  est.clear_lies()
+  lo2 = numpy.asarray(est.lower_points, dtype=float).reshape(-1, dim)
+  gr2 = numpy.asarray(est.greater_points, dtype=float).reshape(-1, dim)
+  if sorted(rowkeys(lo2)) != sorted(rowkeys(lo)) or sorted(rowkeys(gr2)) != sorted(rowkeys(gr)):
+    viol("after a lie cycle (append, stash, recover, clear) the lower/greater sets are no longer the split sets",
+         {"lower": [len(lo), len(lo2)], "greater": [len(gr), len(gr2)]})
+  ctx.count("search: sets re-checked after a lie cycle")
   return True
 
 
